@@ -37,7 +37,7 @@ def run(ctx):
     if ctx.quick:
         plan = {"mc": [("excl", c, PROPS, dict(family=("lease", "leasebatch", "deqvar", "operator"), horizon=20, maxep=2, maxins=2, ticks=(10, 30)))],
                 "gen": [],
-                "drv": [("lease", "lease", 120, 70, {})]}
+                "drv": [("lease", "lease", 120, 70, dict(churn_every=60))]}
         n0, n1, g, rounds = 10, 3, 4, 12
     else:
         plan = {"mc": [("excl", c, PROPS, dict(ids=3, family=("lease", "leasebatch", "deqvar", "operator"), horizon=30, maxep=2, maxins=3, timeout=3000))],
